@@ -45,7 +45,13 @@ var (
 
 func (s *haproxyStub) RoundTrip(r *http.Request) (*http.Response, error) {
 	fail := haproxyDown.Load()
-	if f := s.cur.Load(); f != nil {
+	if th := fineThread(); th != nil && th.kind == "upd" { // suite fine: the first round trip is a call-out
+		if !th.called {
+			th.called = true
+			_, th.callFail = fineYield("call")
+		}
+		fail = th.callFail
+	} else if f := s.cur.Load(); f != nil {
 		if !f.entered {
 			f.entered = true
 			s.entered <- f
@@ -176,6 +182,7 @@ func (h *hist) armCommit(kind string, u, obj, tag int, in []Op) *bool {
 		done := make(chan struct{})
 		go func() {
 			defer close(done)
+			h.preEnq = true
 			e := h.ev(kind, 0, obj, tag, false)
 			e.U = u
 			h.inCommit = true
@@ -185,6 +192,7 @@ func (h *hist) armCommit(kind string, u, obj, tag int, in []Op) *bool {
 				}
 			}
 			h.inCommit = false
+			h.preEnq = false
 		}()
 		select {
 		case <-done:
@@ -394,7 +402,7 @@ func commitArrivals(o *c.Out) {
 func randomWindows(o *c.Out) {
 	r := o.Rng
 	deltas := []int64{0, 1, tick - 1, tick, tick + 1, 2 * tick, 25 * sec, ttl - 1, ttl, ttl + 1, ttl + tick}
-	for i := 0; i < o.Scale(500, 8000, 30000); i++ {
+	for i := 0; i < o.Scale(500, 5000, 30000); i++ {
 		if blockedSeen >= 8 {
 			return
 		}
